@@ -44,11 +44,26 @@ def crate_hash(crate):
             h.update(f.encode())
             h.update(open(os.path.join(dp, f), 'rb').read())
     h.update(open(os.path.join(d, 'Cargo.toml.tmpl'), 'rb').read())
+    sh = os.path.join(ROOT, 'kani', 'shared')
+    for f in sorted(os.listdir(sh)):
+        h.update(f.encode())
+        h.update(open(os.path.join(sh, f), 'rb').read())
     return h.hexdigest()
 
 
+def workbase():
+    """private copy of /verif/kani and /verif/replay per REPO, so that checks running concurrently against different trees
+    (different REPO) never share a Cargo.toml"""
+    base = os.path.join(CACHE, 'kani-src-%s' % hashlib.sha256(REPO.encode()).hexdigest()[:8])
+    os.makedirs(base, exist_ok=True)
+    for sub in ('kani', 'replay'):
+        subprocess.run(['rsync', '-a', '--delete', '--exclude', 'Cargo.toml', '--exclude', 'Cargo.lock', '--exclude', '.cargo',
+                        os.path.join(ROOT, sub) + '/', os.path.join(base, sub) + '/'], check=False)
+    return base
+
+
 def prepare(crate):
-    d = os.path.join(ROOT, 'kani', crate)
+    d = os.path.join(workbase(), 'kani', crate)
     tmpl = open(os.path.join(d, 'Cargo.toml.tmpl')).read().replace('@REPO@', REPO)
     cur = None
     if os.path.exists(os.path.join(d, 'Cargo.toml')):
@@ -78,7 +93,7 @@ def run_one(h, keys):
             return r
         except ValueError:
             pass
-    d = os.path.join(ROOT, 'kani', crate)
+    d = os.path.join(CACHE, 'kani-src-%s' % hashlib.sha256(REPO.encode()).hexdigest()[:8], 'kani', crate)
     tgt = os.path.join(CACHE, 'kani-target-%s-%s' % (crate, hashlib.sha256(REPO.encode()).hexdigest()[:8]))
     cmd = 'cd %s && CARGO_NET_OFFLINE=true CARGO_TARGET_DIR=%s timeout %d cargo kani -Z function-contracts -Z stubbing --harness %s' % (
         d, tgt, h.get('timeout', 900), h['harness'])
@@ -115,12 +130,55 @@ def run_one(h, keys):
         k = o2.find('Concrete playback unit test')
         if k >= 0:
             res['counterexample'] = o2[k:k + 3000]
+    if res['status'] == 'failed' and res.get('counterexample') and crate == 'codec':
+        res['replay'] = replay(h['harness'], res['counterexample'])
     if res['status'] != 'undecided':
         tmp = cpath + '.tmp%d' % os.getpid()
         json.dump(res, open(tmp, 'w'))
         os.replace(tmp, cpath)
     res.update(base)
     return res
+
+
+def parse_playback(txt):
+    """concrete playback block -> flat list of bytes (little-endian bytes of each kani::any(), in call order)"""
+    data = []
+    k = txt.find('let concrete_vals')
+    if k < 0:
+        return None
+    body = txt[k:]
+    e = body.find('];')
+    body = body[:e if e > 0 else len(body)]
+    for m in re.finditer(r'vec!\[([0-9,\s]*)\]', body[body.find('vec![') + 5:]):
+        for x in m.group(1).split(','):
+            x = x.strip()
+            if x:
+                data.append(int(x))
+    return data
+
+
+def replay(harness, counterexample):
+    """re-execute the harness body with the counterexample's concrete values on the real crate (no Kani involved)"""
+    data = parse_playback(counterexample)
+    if data is None:
+        return dict(ran=False, reason='could not parse the concrete playback values')
+    d = os.path.join(CACHE, 'kani-src-%s' % hashlib.sha256(REPO.encode()).hexdigest()[:8], 'replay')
+    tmpl = open(os.path.join(d, 'Cargo.toml.tmpl')).read().replace('@REPO@', REPO)
+    if not os.path.exists(os.path.join(d, 'Cargo.toml')) or open(os.path.join(d, 'Cargo.toml')).read() != tmpl:
+        open(os.path.join(d, 'Cargo.toml'), 'w').write(tmpl)
+    lock = os.path.join(REPO, 'Cargo.lock')
+    if os.path.exists(lock) and not os.path.exists(os.path.join(d, 'Cargo.lock')):
+        open(os.path.join(d, 'Cargo.lock'), 'wb').write(open(lock, 'rb').read())
+    tgt = os.path.join(CACHE, 'replay-target-%s' % hashlib.sha256(REPO.encode()).hexdigest()[:8])
+    b = subprocess.run('cd %s && CARGO_NET_OFFLINE=true CARGO_TARGET_DIR=%s cargo build --offline 2>&1 | tail -5' % (d, tgt), shell=True,
+                       stdout=subprocess.PIPE, stderr=subprocess.STDOUT)
+    exe = os.path.join(tgt, 'debug', 'verif-replay')
+    if not os.path.exists(exe):
+        return dict(ran=False, reason='replay build failed: ' + b.stdout.decode('utf-8', 'replace')[-400:])
+    hexs = ''.join('%02x' % x for x in data)
+    p = subprocess.run([exe, harness, hexs], stdout=subprocess.PIPE, stderr=subprocess.STDOUT)
+    out = p.stdout.decode('utf-8', 'replace').strip()
+    return dict(ran=True, cmd='%s %s %s' % (exe, harness, hexs), input_hex=hexs, outcome=out, fails_on_real_code=(p.returncode == 1))
 
 
 def run_harnesses(hs, tier):
@@ -141,6 +199,12 @@ def run_harnesses(hs, tier):
             rest.append(h)
     for c, h in firsts.items():
         results.append(run_one(h, keys))
+    # crate `codec` (serde_amqp only) tolerates parallel cargo-kani runs in one target dir; crate `amqp` does not
+    # (concurrent runs race in the dependency build), so its harnesses run one after the other
+    par = [h for h in rest if h['crate'] == 'codec']
+    seq = [h for h in rest if h['crate'] != 'codec']
     with ThreadPoolExecutor(max_workers=int(os.environ.get('VERIF_KANI_JOBS', '6'))) as ex:
-        results += list(ex.map(lambda h: run_one(h, keys), rest))
+        fut = ex.submit(lambda: [run_one(h, keys) for h in seq])
+        results += list(ex.map(lambda h: run_one(h, keys), par))
+        results += fut.result()
     return results
